@@ -41,9 +41,13 @@ impl OrphanBroker {
         // block's verdict first and leaves the set afterwards. Read the other way round, a leader
         // that finishes verification between the two reads is seen as "no verdict yet" and "not
         // pending", and its orphans stay stranded until some later block arrives.
+        #[cfg(feature = "verif-hooks")]
+        crate::verif::point("broker:leader-read-pending", &leader_hash);
         let leader_is_pending_verify = self.is_pending_verify.contains(&leader_hash);
         #[cfg(feature = "verif-hooks")]
         crate::verif::gate("search_orphan_leader:between-reads", &leader_hash);
+        #[cfg(feature = "verif-hooks")]
+        crate::verif::point("broker:leader-read-status", &leader_hash);
         let leader_status = self.shared.get_block_status(&leader_hash);
 
         if leader_status.eq(&BlockStatus::BLOCK_INVALID) {
@@ -96,8 +100,12 @@ impl OrphanBroker {
         let block_number = lonely_block.block_number_and_hash.number();
         let parent_hash = lonely_block.parent_hash();
 
+        #[cfg(feature = "verif-hooks")]
+        crate::verif::point("broker:delete-invalid", &block_hash);
         self.delete_block(&lonely_block);
 
+        #[cfg(feature = "verif-hooks")]
+        crate::verif::point("broker:mark-invalid", &block_hash);
         self.shared
             .insert_block_status(block_hash.clone(), BlockStatus::BLOCK_INVALID);
 
@@ -114,7 +122,11 @@ impl OrphanBroker {
         let block_hash = lonely_block.block_number_and_hash.hash();
         let block_number = lonely_block.block_number_and_hash.number();
         let parent_hash = lonely_block.parent_hash();
+        #[cfg(feature = "verif-hooks")]
+        crate::verif::point("broker:parent-read-pending", &block_hash);
         let parent_is_pending_verify = self.is_pending_verify.contains(&parent_hash);
+        #[cfg(feature = "verif-hooks")]
+        crate::verif::point("broker:parent-read-status", &block_hash);
         let parent_status = self.shared.get_block_status(&parent_hash);
         if parent_is_pending_verify || parent_status.contains(BlockStatus::BLOCK_STORED) {
             debug!(
@@ -125,6 +137,8 @@ impl OrphanBroker {
         } else if parent_status.eq(&BlockStatus::BLOCK_INVALID) {
             self.process_invalid_block(lonely_block);
         } else {
+            #[cfg(feature = "verif-hooks")]
+            crate::verif::point("broker:orphan-insert", &block_hash);
             self.orphan_blocks_broker.insert(lonely_block);
         }
 
@@ -171,6 +185,8 @@ impl OrphanBroker {
                 .set(self.preload_unverified_tx.len() as i64)
         }
 
+        #[cfg(feature = "verif-hooks")]
+        crate::verif::point("broker:send-preload", &block_hash);
         match self.preload_unverified_tx.send(lonely_block) {
             Ok(_) => {
                 debug!(
@@ -183,6 +199,8 @@ impl OrphanBroker {
                 return;
             }
         };
+        #[cfg(feature = "verif-hooks")]
+        crate::verif::point("broker:set-unverified-tip", &block_hash);
         if block_number > self.shared.snapshot().tip_number() {
             self.shared.set_unverified_tip(ckb_shared::HeaderIndex::new(
                 block_number,
@@ -203,6 +221,8 @@ impl OrphanBroker {
     }
 
     fn process_descendant(&self, lonely_block: LonelyBlockHash) {
+        #[cfg(feature = "verif-hooks")]
+        crate::verif::point("broker:pending-insert", &lonely_block.block_number_and_hash.hash());
         self.is_pending_verify
             .insert(lonely_block.block_number_and_hash.hash());
 
